@@ -4,7 +4,7 @@ from .. import suite_crash, paths
 from ..runner import Violation
 from ..par import pmap
 
-RULE = ('CacheToDisk.simple and CacheColumns(shard_size=2) over a Source (also on a storage configured to keep labels: JsonLabels), values going through the pickle and the JSON '
+RULE = ('CacheToDisk.simple and CacheColumns(shard_size=2) over a Source (also on a storage configured to keep labels: JsonLabels, and with labels passed to the cache layer on either kind of storage), values going through the pickle and the JSON '
         'serializer; the writer process (fork, fresh pipeline objects) is killed with os._exit right before every file-system '
         'mutation under the storage root (os.mkdir/chmod/chown/rename/remove/..., opening a file for writing: audit hook) and in '
         'the middle of every file write (half of the data written, flushed), with an older complete entry of another key present; '
@@ -18,8 +18,10 @@ def run(tier, seed, res, lean):
     os.makedirs(paths.SCRATCH, exist_ok=True)
     scratch = tempfile.mkdtemp(prefix='cv-crash-', dir=paths.SCRATCH)
     try:
-        combos = [('disk', 'pickle'), ('columns', 'pickle'), ('disk+labels', 'pickle')] if tier == 'quick' else \
-            [('disk', 'pickle'), ('disk', 'json'), ('columns', 'pickle'), ('columns', 'json'), ('disk+labels', 'pickle'), ('columns+labels', 'json')]
+        combos = [('disk', 'pickle'), ('columns', 'pickle'), ('disk+labels', 'pickle'), ('disk+uselabels', 'pickle'),
+                  ('disk+labels+uselabels', 'pickle')] if tier == 'quick' else \
+            [('disk', 'pickle'), ('disk', 'json'), ('columns', 'pickle'), ('columns', 'json'), ('disk+labels', 'pickle'),
+             ('columns+labels', 'json'), ('disk+uselabels', 'pickle'), ('disk+uselabels', 'json'), ('disk+labels+uselabels', 'pickle')]
         jobs, points = [], {}
         for kind, vk in combos:
             n, events = suite_crash.count_mutations(kind, vk, scratch)
@@ -35,8 +37,15 @@ def run(tier, seed, res, lean):
         for what, problems, ran in outs:
             checked += 1 if ran else 0
             for p in problems[:2]:
-                res.violations.append(Violation('c12-crash', p[:500], {'suite': 'S-CRASH', 'what': what, 'msg': p}))
-        res.violations[:] = res.violations[:8]
+                if what.startswith('disk+labels+uselabels/') and 'JSONDecodeError' in p and ': crash ' in what:
+                    # F11: tarn's JsonLabels rewrites the labels file in place (storage configured by the user to keep labels)
+                    res.violations.append(Violation('c12-labels-file', p[:500], {
+                        'suite': 'S-CRASH', 'what': what, 'msg': p,
+                        'signature': {'site': 'tarn.JsonLabels.update', 'storage': 'configured by the user with labels: JsonLabels'}}))
+                else:
+                    res.violations.append(Violation('c12-crash', p[:500], {'suite': 'S-CRASH', 'what': what, 'msg': p}))
+        known = [v for v in res.violations if v.kind == 'c12-labels-file']
+        res.violations[:] = [v for v in res.violations if v.kind != 'c12-labels-file'][:8] + known[:1]
         res.coverage.update({
             'evaluations': len(jobs), 'distinct_nontrivial': checked, 'rule': RULE, 'programs': len(combos),
             'disagreements_checked': 0, 'exhaustive': True,
@@ -49,6 +58,21 @@ def run(tier, seed, res, lean):
 def _job(j):
     kind, args = j
     return suite_crash.crash_job(args) if kind == 'crash' else suite_crash.loss_job(args)
+
+
+def witness_f11():
+    """F11: storage configured with JsonLabels + labels passed: die right after the labels file is opened for writing"""
+    os.makedirs(paths.SCRATCH, exist_ok=True)
+    scratch = tempfile.mkdtemp(prefix='cv-crash-', dir=paths.SCRATCH)
+    try:
+        n, events = suite_crash.count_mutations('disk+labels+uselabels', 'pickle', scratch)
+        if 'open:w' not in events:
+            return False
+        i = events.index('open:w') + 1
+        what, problems, ran = suite_crash.crash_job(('disk+labels+uselabels', 'pickle', 'a', i, False, scratch))
+        return bool(ran and problems)
+    finally:
+        shutil.rmtree(scratch, ignore_errors=True)
 
 
 def replay(obj, kind):
